@@ -262,6 +262,29 @@ def object_shapes(nm: Namer) -> Dict[str, Callable[[T, Ctx], Optional[T]]]:
             (F("a", Opt(x), default="None", has_default=True, default_value=None, none_as_undefined=True),),
         )
 
+    def none_as_undef_604(x, c):
+        # the same with the union written `T | None` (PEP 604: another runtime class than typing.Union)
+        if resolve(x, c) == NONE:
+            return None
+        return Obj(
+            "dataclass",
+            nm("O"),
+            (F("a", Uni((x, NONE), pep604=True), default="None", has_default=True, default_value=None, none_as_undefined=True), F("b", Uni((INT, NONE), pep604=True), default="None", has_default=True, default_value=None)),
+        )
+
+    def annotated_union(x, c):
+        # unions under an annotation: Annotated[Optional[T], ...] and Annotated[Union[int, UndefinedType], ...] are still unions
+        # for exclude_none / Undefined omission
+        return Obj(
+            "dataclass",
+            nm("O"),
+            (
+                F("a", x),
+                F("o", Con(Opt(INT), (("max", 10 ** 6),)), default="None", has_default=True, default_value=None),
+                F("u", Con(Uni((INT, Prim("undefined"))), (("max", 10 ** 6),)), default="0", has_default=True, default_value=0),
+            ),
+        )
+
     def undefined_default(x, c):
         return Obj(
             "dataclass",
